@@ -14,6 +14,7 @@ import (
 	"sort"
 	"strconv"
 	"strings"
+	"sync"
 	"sync/atomic"
 	"time"
 	"unicode"
@@ -173,7 +174,18 @@ func classify(err error) parseOut {
 // totality (the goroutine is abandoned; after three such inputs no further input is parsed, so that the run itself terminates)
 var parseHangs int32
 
+// Parsing has no memory: now and then a parse is preceded by a parse of a malformed input whose outcome is ignored (an error path
+// that leaves something behind - a pooled buffer, a counter, a flag - would change what the next parse returns)
+var poisonInputs = []string{"[\"abc\xff\"]", "[\"ab", "{\"k\xc0\x80\":1}", "[tru]", "{\"a\":[1,{\"b\":\"x\xf5y\"}", "[\n\n\n1,\n\"q\\", "{\"k\":\n\n\n nul}",
+	"[\"long long long long long long long long long long long long long long \xe2\x82\"]", "[[[[[[[[", "{\"a\":{\"b\":{\"c\":[1,2,", "[1 2 3] ]", "[9223372036854775808,\n\n1,x]"}
+var poisonState uint32
+
 func doParse(isObj bool, s string) parseOut {
+	poisonState = poisonState*1664525 + 1013904223
+	if poisonState>>24 < 20 { // about 8 % of the parses
+		p := poisonInputs[int(poisonState>>8)%len(poisonInputs)]
+		watchParse(func() parseOut { return doParseNow(p[0] == '{', p) })
+	}
 	return watchParse(func() parseOut { return doParseNow(isObj, s) })
 }
 
@@ -819,7 +831,60 @@ func (r *R) jsonObject(depth int) string {
 	return b.String()
 }
 
+// large documents (not evaluated by the model: compared with the reference decoder on the Go side only): many records, each ending
+// in a nested container; wide and long rather than deep. A limit or a counter that is only reached after thousands of tokens,
+// records or levels opened-and-closed would show here.
+func bigDocCases(r *R, out *Out) {
+	for _, isObj := range []bool{false, true} {
+		var b strings.Builder
+		nrec := 10500 + r.Intn(3000)
+		if isObj {
+			b.WriteString("{")
+		} else {
+			b.WriteString("[")
+		}
+		for k := 0; k < nrec; k++ {
+			if k > 0 {
+				b.WriteString(",")
+			}
+			if isObj {
+				fmt.Fprintf(&b, "\"r%d\":", k)
+			}
+			switch k % 3 {
+			case 0:
+				fmt.Fprintf(&b, "{\"id\":%d,\"tags\":[\"a\",%d]}", k, k%7)
+			case 1:
+				fmt.Fprintf(&b, "{\"n\":%d.5,\"o\":{\"k\":[]}}", k)
+			default:
+				fmt.Fprintf(&b, "[%d,[true,null],{\"z\":{}}]", k)
+			}
+			if k%500 == 0 {
+				b.WriteString("\n")
+			}
+		}
+		if isObj {
+			b.WriteString("}")
+		} else {
+			b.WriteString("]")
+		}
+		s := b.String()
+		f := &failer{pred: true}
+		ref, ok := refDecode(s)
+		po := doParse(isObj, s)
+		if !ok {
+			f.fail("harness bug: the reference decoder rejects the large document")
+		} else if !po.ok {
+			f.fail("a valid JSON document of %d records (%d bytes) was rejected: %s", nrec, len(s), po.errText)
+		} else if po.tree.canon() != ref.canon() {
+			f.fail("a large document parsed differently from the reference decoder")
+		}
+		out.emit(&Case{Coq: "", Desc: map[string]any{"large_document": map[string]any{"records": nrec, "bytes": len(s), "object_root": isObj}}, Pred: f.pred, PredMsg: f.msg,
+			Nontrivial: true, Key: fmt.Sprintf("bigdoc/%v/%d", isObj, nrec), Tags: []string{"large-document"}})
+	}
+}
+
 func genC03(r *R, n int, tier string, out *Out) {
+	bigDocCases(r, out)
 	for i := 0; i < n; i++ {
 		isObj := r.chance(0.5)
 		var s string
@@ -890,6 +955,32 @@ func genC04(r *R, n int, tier string, out *Out) {
 				i++
 			}
 		case 1: // ill-formed UTF-8 placed between the root brackets
+			if r.chance(0.3) {
+				// inside LONG string literals (64 ... 1100 bytes, no escapes) as list element, object value and key
+				ln := pickOf(r, []int{63, 64, 65, 100, 128, 129, 300, 1100})
+				body := []byte(strings.Repeat("abcdefghijklmnopqrstuvwxyz0123456789 ", ln/37+1)[:ln])
+				pos := r.Intn(len(body) + 1)
+				bad := pickOf(r, illFormed)
+				lit := "\"" + string(body[:pos]) + bad + string(body[pos:]) + "\""
+				var p string
+				switch r.Intn(4) {
+				case 0:
+					p, isObj = "["+lit+"]", false
+				case 1:
+					p, isObj = "[1,[\"x\","+lit+"],2]", false
+				case 2:
+					p, isObj = "{\"k\":"+lit+"}", true
+				default:
+					p, isObj = "{"+lit+":1}", true
+				}
+				f := &failer{pred: true}
+				if po := doParse(isObj, p); po.ok {
+					f.fail("a document with ill-formed UTF-8 inside a long string literal was accepted")
+				}
+				out.emit(textCase("C04", isObj, p, f, []string{"ill-formed-utf8", "long-literal"}, nil))
+				i++
+				continue
+			}
 			for k := 0; k < 4 && i < n; k++ {
 				bad := pickOf(r, illFormed)
 				pos := 1 + r.Intn(len(s)-1)
@@ -1038,6 +1129,36 @@ func genC04(r *R, n int, tier string, out *Out) {
 			if !pf.same(pobj) {
 				f.fail("ParseFile differs from ParseObject on the file's bytes")
 			}
+			// the same path again, after the first result was modified, and after the file was rewritten in place with other
+			// content of the same length: every call reads the file as it is now and builds a new container
+			if o1, err := at.ParseFile(path); err == nil && o1 != nil {
+				o1.Set("zz-modified-by-caller", 1)
+				o2, err2 := at.ParseFile(path)
+				if err2 != nil || o2 == nil {
+					f.fail("the second ParseFile of the same unchanged file failed")
+				} else {
+					if o2 == o1 {
+						f.fail("two ParseFile calls on one path returned the identical container")
+					}
+					if pobj.ok && canon(o2) != pobj.tree.canon() {
+						f.fail("ParseFile of an unchanged file, after the caller modified the first result, differs from ParseObject on the file's bytes")
+					}
+				}
+				if i1 := strings.IndexAny(content, "0123456789"); i1 >= 0 {
+					alt := []byte(content)
+					alt[i1] = byte('0' + (alt[i1]-'0'+1)%10)
+					if st, e := os.Stat(path); e == nil {
+						os.WriteFile(path, alt, 0o600)
+						os.Chtimes(path, st.ModTime(), st.ModTime())
+						pf3 := parseFileOut(path)
+						pobj3 := doParse(true, string(alt))
+						if !pf3.same(pobj3) {
+							f.fail("after the file was rewritten (same length, same modification time) ParseFile no longer agrees with ParseObject on its bytes")
+						}
+						os.WriteFile(path, []byte(content), 0o600)
+					}
+				}
+			}
 			for _, badPath := range []string{filepath.Join(tmp, "missing.json"), tmp} {
 				pm := parseFileOut(badPath)
 				if pm.ok || pm.panicked {
@@ -1076,6 +1197,7 @@ func parseFileNow(path string) (po parseOut) {
 // ---------- C20: one injected syntax error at a known position ----------
 
 func genC20(r *R, n int, tier string, out *Out) {
+	var recent []c20doc
 	// between tokens: newlines, and blanks that are NOT newlines (a lone CR, VT, FF, NEL, LS, PS, other unicode.IsSpace characters) - only LF counts
 	nl := func() string {
 		if r.chance(0.12) {
@@ -1093,6 +1215,9 @@ func genC20(r *R, n int, tier string, out *Out) {
 				// code points whose low byte (or low 16 bits) is LF, CR or another structural character, and the Unicode line separators:
 				// none of them is a newline
 				return pickOf(r, []string{"\"\u010a\"", "\"\u200a\"", "\"\u4e0a\"", "\"a\u010ab\u010a\"", "\"\u010d\u010a\"", "\"\u2028\"", "\"\u2029\u0085\"", "\"\U0001000a\"", "\"\u0122\u015c\""})
+			}
+			if r.chance(0.06) {
+				return pickOf(r, []string{"9223372036854775808", "18446744073709551616", "-9223372036854775809", "9223372036854775807", "123456789012345678901234567890"})
 			}
 			return pickOf(r, []string{"1", "true", "null", `"s"`, "2.5", `"a\nb"`, "-7", `"x y"`, "\"ab\ncd\"", "\"l1\nl2\nl3\"", "\"\nx\"", "\"tab\there\"", "\"a\\\nb\"", "\"\\\n\""})
 		}
@@ -1225,7 +1350,48 @@ func genC20(r *R, n int, tier string, out *Out) {
 			}
 		}
 		out.emit(textCase("C20", isObj, s, f, tags, map[string]any{"expected_line": expectLine}))
+		recent = append(recent, c20doc{isObj, s, po})
+		if len(recent) == 8 {
+			// the same eight documents parsed at the same time by eight goroutines (three rounds): every call counts its own lines
+			if i%5 == 2 {
+				out.emit(concurrentParses(recent))
+			}
+			recent = recent[:0]
+		}
 	}
+}
+
+type c20doc struct {
+	isObj bool
+	s     string
+	po    parseOut
+}
+
+func concurrentParses(docs []c20doc) *Case {
+	f := &failer{pred: true}
+	var mu sync.Mutex
+	var wg sync.WaitGroup
+	for round := 0; round < 3; round++ {
+		for _, d := range docs {
+			wg.Add(1)
+			go func(d c20doc) {
+				defer wg.Done()
+				// longer texts in front make the calls overlap: the same document behind 40 extra lines cites 40 lines more
+				pad := strings.Repeat("\n", 40)
+				got := doParseNow(d.isObj, pad+d.s)
+				want := d.po
+				ok := got.ok == want.ok && got.class == want.class && got.cited == want.cited && (got.ok || got.line == want.line+40 || want.line == 0)
+				if !ok {
+					mu.Lock()
+					f.fail("parsed concurrently with other documents, %q cites line %d (%s); parsed alone it cites line %d + 40 (%s)", clip(d.s), got.line, got.class, want.line, want.class)
+					mu.Unlock()
+				}
+			}(d)
+		}
+	}
+	wg.Wait()
+	return &Case{Coq: "", Desc: map[string]any{"concurrent_parses": len(docs) * 3}, Pred: f.pred, PredMsg: f.msg, Nontrivial: true,
+		Key: "concurrent-parses/" + docs[0].s, Tags: []string{"concurrent-parses"}}
 }
 
 // the cited line exists in the text and contains the cited character (char errors) or a delimiter , ] } (value errors)
